@@ -653,6 +653,7 @@ class LanczosGroundState(KrylovBased):
         Returns the number of steps performed.
         """
         h = self._h_krylov
+        self._cache = []  # vectors of an earlier `run()` must not enter the (re-)orthogonalization
         w = self.psi0  # initialize
         beta = npc.norm(w)
         if beta < self._cutoff:
